@@ -133,6 +133,8 @@ struct Op {
     // ForkExec: thread B runs `ex`; the forking thread forks when B is at scheduling point fork_point; the child runs child_ex
     int fork_point = 0;
     ExecOp child_ex;
+    std::vector<ExecOp> extra_calls;        // ForkExec: further parent threads, each parked inside its call at extra_points[i] when the fork happens
+    std::vector<int> extra_points;
     bool grandchild = false;
     bool roundtrip = false;                 // CliConf: write the reported values back into the config file and report again
     // Mutate: JSON patch merged into the world
